@@ -593,6 +593,78 @@ func scalarSpec(op string, a, b, g int64) (string, bool) {
 	return "", false
 }
 
+// acceptedShape checks, without the model, what the accept-set theorem says of
+// every accepted signature: right length, z pieces and hint section re-encode
+// to themselves (canonical encoding), every |z_i mod+- q| < gamma1 - beta,
+// hint weight <= omega.
+func acceptedShape(p *pset, sig []byte) string {
+	if len(sig) != p.sigLen {
+		return fmt.Sprintf("accepted signature has %d bytes, not %d", len(sig), p.sigLen)
+	}
+	ct, zb := p.lambda/4, 1+p.lg1
+	g1 := uint32(1) << p.lg1
+	bound := int64(g1) - int64(p.tau*p.eta)
+	for i := 0; i < p.l; i++ {
+		piece := sig[ct+i*32*zb : ct+(i+1)*32*zb]
+		z := imldsa.VerifBitUnpack(piece, g1, zb)
+		if !bytes.Equal(imldsa.VerifBitPack(z, g1, zb), piece) {
+			return fmt.Sprintf("accepted signature: z[%d] is not canonically encoded", i)
+		}
+		for j, c := range z {
+			a := int64(c)
+			if a > (q-1)/2 {
+				a = q - a
+			}
+			if c >= q || a >= bound {
+				return fmt.Sprintf("accepted signature: |z[%d][%d]| = %d >= gamma1 - beta = %d", i, j, a, bound)
+			}
+		}
+	}
+	hs := sig[ct+p.l*32*zb:]
+	h, err := p.hintUnpack(hs)
+	if err != nil {
+		return "accepted signature: hint section does not decode"
+	}
+	if !bytes.Equal(p.hintPack(h), hs) {
+		return "accepted signature: hint section is not canonically encoded"
+	}
+	w := 0
+	for _, row := range h {
+		for _, c := range row {
+			if c > 1 {
+				return "accepted signature: hint entry not 0/1"
+			}
+			w += int(c)
+		}
+	}
+	if len(h) != p.k || w > p.omega {
+		return fmt.Sprintf("accepted signature: %d hint rows of weight %d (k = %d, omega = %d)", len(h), w, p.k, p.omega)
+	}
+	return ""
+}
+
+// nttRoots[i] = 1753^(2*brv8(i)+1) mod q, the evaluation point of NTT output i
+var nttRoots = func() (r [256]uint64) {
+	for i := 0; i < 256; i++ {
+		e := 0
+		for b := 0; b < 8; b++ {
+			e |= ((i >> b) & 1) << (7 - b)
+		}
+		r[i] = new(big.Int).Exp(big.NewInt(1753), big.NewInt(int64(2*e+1)), big.NewInt(q)).Uint64()
+	}
+	return r
+}()
+
+// evalAtRoot returns p(nttRoots[i]) mod q (Horner from the top coefficient)
+func evalAtRoot(p [256]uint32, i int) uint64 {
+	x := nttRoots[i]
+	var acc uint64
+	for j := 255; j >= 0; j-- {
+		acc = (acc*x + uint64(p[j])) % q
+	}
+	return acc
+}
+
 func canonical(c [256]uint32) bool {
 	for _, v := range c {
 		if v >= q {
@@ -658,6 +730,16 @@ func check(in, obs string) string {
 		p := hexPoly(f[2])
 		if canonical(p) && imldsa.VerifINTT(hexPoly(obs)) != p {
 			return "intt(ntt(p)) != p"
+		}
+		// FIPS 204 section 2.5 / Algorithm 41: output i is p evaluated at
+		// zeta^(2*brv8(i)+1) (C10_ntt_is_evaluation), recomputed here by Horner
+		if canonical(p) {
+			got := hexPoly(obs)
+			for i := 0; i < 256; i++ {
+				if want := evalAtRoot(p, i); uint64(got[i]) != want {
+					return fmt.Sprintf("ntt(p)[%d] = %d, p(zeta^(2*brv8(%d)+1)) mod q = %d", i, got[i], i, want)
+				}
+			}
 		}
 	case "intt":
 		p := hexPoly(f[2])
@@ -757,6 +839,14 @@ func check(in, obs string) string {
 		}
 		if strings.HasPrefix(tag, "-") && obs == "ok" {
 			return "invalid signature accepted (" + tag + ")"
+		}
+		if f[1] == "vf" && obs == "ok" {
+			// C10_verify_accepts_exactly, "only if" half that needs no XOF: whatever
+			// is accepted is the canonical encoding of (c~, z, h) with ||z|| < gamma1-beta
+			// and at most omega hints
+			if msg := acceptedShape(setOf(f[2]), hx.UH(f[6])); msg != "" {
+				return msg + " (" + tag + ")"
+			}
 		}
 	case "ts":
 		p := setOf(f[2])
